@@ -469,10 +469,12 @@ func (self *Compiler) compileExpr(node ast.AnalyzedExpression) {
 		self.insert(newOneStringInstruction(Opcode_Jump, afterCatchLabel), node.Range)
 
 		// exception case
-		mangledExceptionName := self.mangleVar(node.CatchIdent.Ident())
-		self.insert(newOneStringInstruction(Opcode_Label, exceptionLabel), node.Range)
+		// The catch identifier lives in the scope of the catch block only:
+		// registering it in the enclosing scope would shadow an outer variable of the same name after the `try`.
 		self.pushScope()
 		defer self.popScope()
+		mangledExceptionName := self.mangleVar(node.CatchIdent.Ident())
+		self.insert(newOneStringInstruction(Opcode_Label, exceptionLabel), node.Range)
 		self.insert(newOneStringInstruction(Opcode_SetVarImm, mangledExceptionName), node.Range)
 		self.insert(newPrimitiveInstruction(Opcode_PopTryLabel), node.Range)
 		self.compileBlock(node.CatchBlock, false)
